@@ -115,6 +115,7 @@ type ctxKey string
 //	2: prefix filter over {red, green, grey} on the partial word
 //	3: echoes the number of previous args: "n<k>"
 //	4: by target: bash -> "b-item", zsh -> "z-item"
+//go:noinline
 func valueFn(id int) func(target, partial string) []string {
 	switch id {
 	case 1:
@@ -142,6 +143,7 @@ func valueFn(id int) func(target, partial string) []string {
 	return nil
 }
 
+//go:noinline
 func argFn(id int) getoptions.ArgCompletionsFn {
 	switch id {
 	case 1:
@@ -310,72 +312,89 @@ func (b *Built) defineOpt(g *getoptions.GetOpt, path string, o *OptDef) {
 	}
 }
 
-func (b *Built) applySettings(g *getoptions.GetOpt, c *CmdDef) {
-	if c.UnknownMode >= 0 {
-		g.SetUnknownMode(getoptions.UnknownMode(c.UnknownMode))
-	}
-	if c.RequireOrder {
-		g.SetRequireOrder()
-	}
+// Op - one call of the definition API.
+type Op struct {
+	Kind string   `json:"kind"` // opt newcmd unset umode reqorder argcompl argfns synarg setfn help
+	Path []string `json:"path"` // command names from the root
+	Opt  *OptDef  `json:"opt,omitempty"`
+	Name string   `json:"name,omitempty"`
+	Desc string   `json:"desc,omitempty"`
+	Int  int      `json:"int,omitempty"`
+	List []string `json:"list,omitempty"`
+	Ints []int    `json:"ints,omitempty"`
 }
 
-func (b *Built) defineCmd(g *getoptions.GetOpt, path string, c *CmdDef) {
-	b.pathOf[c] = path
-	if c.UnsetOptions {
-		g.UnsetOptions()
+func clonePath(p []string) []string { return append([]string{}, p...) }
+
+// Linearise - the definition as the sequence of API calls Build makes.
+func Linearise(p *ProgDef) []Op {
+	ops := []Op{}
+	fnID := 0
+	var cmd func(path []string, c *CmdDef)
+	settings := func(path []string, c *CmdDef) {
+		if c.UnknownMode >= 0 {
+			ops = append(ops, Op{Kind: "umode", Path: clonePath(path), Int: c.UnknownMode})
+		}
+		if c.RequireOrder {
+			ops = append(ops, Op{Kind: "reqorder", Path: clonePath(path)})
+		}
 	}
-	if !c.SettingsLate {
-		b.applySettings(g, c)
+	cmd = func(path []string, c *CmdDef) {
+		if c.UnsetOptions {
+			ops = append(ops, Op{Kind: "unset", Path: clonePath(path)})
+		}
+		if !c.SettingsLate {
+			settings(path, c)
+		}
+		if len(c.Suggestions) > 0 {
+			ops = append(ops, Op{Kind: "argcompl", Path: clonePath(path), List: c.Suggestions})
+		}
+		if len(c.SuggestFns) > 0 {
+			ops = append(ops, Op{Kind: "argfns", Path: clonePath(path), Ints: c.SuggestFns})
+		}
+		for _, a := range c.SynArgs {
+			ops = append(ops, Op{Kind: "synarg", Path: clonePath(path), Name: a[0], Desc: a[1]})
+		}
+		if c.HasFn {
+			ops = append(ops, Op{Kind: "setfn", Path: clonePath(path), Int: fnID})
+			fnID++
+		}
+		for i := range c.Opts {
+			ops = append(ops, Op{Kind: "opt", Path: clonePath(path), Opt: &c.Opts[i]})
+		}
+		for _, sub := range c.Cmds {
+			ops = append(ops, Op{Kind: "newcmd", Path: clonePath(path), Name: sub.Name, Desc: sub.Desc})
+			cmd(append(clonePath(path), sub.Name), sub)
+		}
+		for i := range c.LateOpts {
+			ops = append(ops, Op{Kind: "opt", Path: clonePath(path), Opt: &c.LateOpts[i]})
+		}
+		if c.SettingsLate {
+			settings(path, c)
+		}
 	}
-	if len(c.Suggestions) > 0 {
-		g.ArgCompletions(c.Suggestions...)
+	cmd([]string{}, p.Root)
+	if p.Help {
+		ops = append(ops, Op{Kind: "help", Name: p.HelpName, List: p.HelpAlias})
 	}
-	for _, id := range c.SuggestFns {
-		g.ArgCompletionsFns(argFn(id))
-	}
-	for _, a := range c.SynArgs {
-		g.HelpSynopsisArg(a[0], a[1])
-	}
-	if c.HasFn {
-		id := b.nextFn
-		b.nextFn++
-		b.FnIDs[path] = id
-		p := path
-		g.SetCommandFn(func(ctx context.Context, opt *getoptions.GetOpt, args []string) error {
-			call := FnCall{ID: id, Path: p, Args: append([]string{}, args...)}
-			call.CtxOK = ctx.Value(ctxKey("verif")) == "token"
-			d := opt.VerifDumpTree()
-			for i, k := range d.Root.OptionKeys {
-				o := d.Options[d.Root.OptionIDs[i]]
-				call.ViewKeys = append(call.ViewKeys, k)
-				call.View = append(call.View, ViewEntry{Key: k, Value: fmt.Sprintf("%#v", opt.Value(k)), Called: opt.Called(k), As: opt.CalledAs(k)})
-				call.viewT = append(call.viewT, Pair(Str(k), tState(o)))
-				// the view's own query API must agree with the option objects it holds
-				if opt.Called(k) != o.Called || opt.CalledAs(k) != o.UsedAlias {
-					call.ViewMismatch = append(call.ViewMismatch, k)
-				}
-			}
-			b.FnCalls = append(b.FnCalls, call)
-			return b.FnErr
-		})
-	}
-	for i := range c.Opts {
-		b.defineOpt(g, path, &c.Opts[i])
-	}
-	for _, sub := range c.Cmds {
-		sg := g.NewCommand(sub.Name, sub.Desc)
-		b.defineCmd(sg, path+"/"+sub.Name, sub)
-	}
-	for i := range c.LateOpts {
-		b.defineOpt(g, path, &c.LateOpts[i])
-	}
-	if c.SettingsLate {
-		b.applySettings(g, c)
-	}
+	return ops
 }
 
-// Build - constructs the program; a panic of the library (invalid definition) is returned as error.
+func pathKey(path []string) string {
+	k := ""
+	for _, c := range path {
+		k += "/" + c
+	}
+	return k
+}
+
+// Build - constructs the program by executing the operation list against the real API; a panic of
+// the library (invalid definition) is returned as error.
 func Build(p *ProgDef) (b *Built, err error) {
+	return BuildOps(p, Linearise(p))
+}
+
+func BuildOps(p *ProgDef, ops []Op) (b *Built, err error) {
 	defer func() {
 		if r := recover(); r != nil {
 			err = fmt.Errorf("definition panic: %v", r)
@@ -397,13 +416,63 @@ func Build(p *ProgDef) (b *Built, err error) {
 		g.SetMapKeysToLower()
 	}
 	b.Opt = g
-	b.defineCmd(g, "", p.Root)
-	if p.Help {
-		fns := []getoptions.ModifyFn{}
-		if len(p.HelpAlias) > 0 {
-			fns = append(fns, g.Alias(p.HelpAlias...))
+	handles := map[string]*getoptions.GetOpt{"": g}
+	for _, op := range ops {
+		pk := pathKey(op.Path)
+		h := handles[pk]
+		if h == nil {
+			return nil, fmt.Errorf("harness: no handle for %q", pk)
 		}
-		g.HelpCommand(p.HelpName, fns...)
+		switch op.Kind {
+		case "opt":
+			b.defineOpt(h, pk, op.Opt)
+		case "newcmd":
+			handles[pk+"/"+op.Name] = h.NewCommand(op.Name, op.Desc)
+		case "unset":
+			h.UnsetOptions()
+		case "umode":
+			h.SetUnknownMode(getoptions.UnknownMode(op.Int))
+		case "reqorder":
+			h.SetRequireOrder()
+		case "argcompl":
+			h.ArgCompletions(op.List...)
+		case "argfns":
+			for _, id := range op.Ints {
+				h.ArgCompletionsFns(argFn(id))
+			}
+		case "synarg":
+			h.HelpSynopsisArg(op.Name, op.Desc)
+		case "setfn":
+			b.setFn(h, pk, op.Int)
+		case "help":
+			fns := []getoptions.ModifyFn{}
+			if len(op.List) > 0 {
+				fns = append(fns, g.Alias(op.List...))
+			}
+			g.HelpCommand(op.Name, fns...)
+		}
 	}
 	return b, nil
+}
+
+func (b *Built) setFn(g *getoptions.GetOpt, path string, id int) {
+	b.FnIDs[path] = id
+	p := path
+	g.SetCommandFn(func(ctx context.Context, opt *getoptions.GetOpt, args []string) error {
+		call := FnCall{ID: id, Path: p, Args: append([]string{}, args...)}
+		call.CtxOK = ctx.Value(ctxKey("verif")) == "token"
+		d := opt.VerifDumpTree()
+		for i, k := range d.Root.OptionKeys {
+			o := d.Options[d.Root.OptionIDs[i]]
+			call.ViewKeys = append(call.ViewKeys, k)
+			call.View = append(call.View, ViewEntry{Key: k, Value: fmt.Sprintf("%#v", opt.Value(k)), Called: opt.Called(k), As: opt.CalledAs(k)})
+			call.viewT = append(call.viewT, Pair(Str(k), tState(o)))
+			// the view's own query API must agree with the option objects it holds
+			if opt.Called(k) != o.Called || opt.CalledAs(k) != o.UsedAlias {
+				call.ViewMismatch = append(call.ViewMismatch, k)
+			}
+		}
+		b.FnCalls = append(b.FnCalls, call)
+		return b.FnErr
+	})
 }
